@@ -18,18 +18,22 @@ GEN = ['GenLex', 'GenSelector']
 
 MANIFEST = dict(
     text='Machine-checked (Coq, closed under the global context) on a token-level model of Selector._prepare_tokens, the New state '
-         'machine (expected-strings, substring truth table and per-production return values regenerated from selector.py on every run), '
-         'the post conditions of _setSelectorText, do_css_Selector and SelectorList: for every selector of the AST (compounds of '
-         'type/universal incl. *| and | prefixes, id, class, attribute x 6 operators + bare, pseudo-classes, functional pseudos with '
-         'arbitrary expression arguments, :not() of any simple selector, one/two-colon pseudo-elements, 4 combinators) in every spelling '
-         '(white space, comments, any spelling of not( that normalises to it, any names) the model accepts the rendered tokens and reports '
-         '(0, #id, #class+#attribute, #type+#pseudo-element); hence spelling invariance; a list parse is all-or-nothing, keeps order; '
-         'appendSelector moves an already present selector to the end, keeps the others in order and never duplicates. '
-         'The model is tied to cssutils by differential runs (texts -> tokenizer model -> selector model vs Selector/SelectorList); '
-         'round trip and sheet attachment are covered by the oracle search only.',
-    note='Trusted: Coq kernel + vm_compute; translator/gen_selector.py (AST extraction of Constants, returns, literals); extraction + driver; '
-         'hand model of the productions/append/Out.append validated by correspondence; Model/Tokenizer (C05) for text -> tokens; '
-         'namespaces other than the undeclared-prefix forms (none, *|, |) are out of scope (C15).',
+         'machine (expected strings, substring truth table and the value returned by every return statement regenerated from '
+         'selector.py on every run), the post conditions of _setSelectorText, do_css_Selector and SelectorList: for every selector '
+         'tree (compounds of type/universal incl. *| and | prefixes, id, class, attribute x 6 operators + bare, pseudo-classes, '
+         'functional pseudos with arbitrary expression arguments, :not() of any simple selector, one-colon/two-colon/functional '
+         'pseudo-elements, 4 combinators) in every spelling (white space and comments at every position, any spelling of not( that '
+         'normalises to it, any names) the rendered tokens are regrouped as intended, accepted, and the reported specificity is '
+         '(0, #id, #class+#attribute, #type+#pseudo-element) — by induction over the tree; hence spelling invariance; a list parse is '
+         'all-or-nothing and keeps order (for every token list); appendSelector moves an already present selector to the end, keeps '
+         'the others in order and never duplicates (for every list state / history). The model is tied to cssutils by differential '
+         'runs (Selector, _prepare_tokens, SelectorList histories) and the rendering function of the theorems is tied to the texts '
+         'the harness writes (same tokens as the tokenizer reads, all cases inside the side conditions of the theorems). Round trip '
+         'and sheet attachment are covered by the oracle search only.',
+    note='Trusted: Coq kernel + vm_compute; translator/gen_selector.py (AST extraction of Constants, returns, literals, flags); '
+         'extraction + driver; hand model of the productions / append / Out.append validated by correspondence, not verified against '
+         'the Python text; Model/Tokenizer (C05) for text -> tokens; declared namespace prefixes are out of scope (C15); the model is '
+         'written for the code with fixes/C16-*.patch applied.',
     design='7/C16')
 
 KNOWN_PRED = {}
@@ -242,6 +246,42 @@ def oracle_ast(ctx, sel, text, canon_text, obs, canon_obs):
 
 
 # ---- lists
+# Base._tokensupto2 matches brackets and the separating comma by token VALUE, so an identifier spelled with an
+# escaped bracket / parenthesis / brace / comma (\\5b , \\29 , \\2c ...) takes part in the splitting of the list.
+# That is a matter of the generic token slicer, not of the list semantics stated in C16: such members are left to
+# the correspondence check and are not judged by the reference below.
+import re as _re
+ESC_STRUCT = _re.compile(r'\\0{0,4}(5b|5d|28|29|7b|7d|2c)(?![0-9a-fA-F])', _re.I)
+
+def balanced(piece):
+    """are ( ) [ ] { } balanced the way Base._tokensupto2 counts them?  (a junk member such as ':a(b(c)' is accepted
+    stand-alone because the regrouping glues 'b(' onto ':a(' , but inside a list its open parenthesis hides the
+    following commas; the reference below speaks about members that are delimited by the commas)"""
+    from harness import impl
+    try:
+        toks = impl.tokenize(piece, full=False)
+    except Exception:   # noqa
+        return False
+    par = brk = brc = 0
+    for t in toks:
+        v = t[1]
+        if v == '{':
+            brc += 1
+        elif v == '}':
+            brc -= 1
+        elif v == '[':
+            brk += 1
+        elif v == ']':
+            brk -= 1
+        elif v == '(' or t[0] == 'FUNCTION':
+            par += 1
+        elif v == ')':
+            par -= 1
+        if par < 0 or brk < 0 or brc < 0:
+            return False
+    return par == brk == brc == 0
+
+
 def gen_member(rng, pool):
     """-> (text, valid-by-construction or None when unknown)"""
     r = rng.random()
@@ -340,7 +380,8 @@ def run_list_history(ctx, ops):
                         ctx.violation('list-append-dup', dict(case, at=k), 'after appending %r the list is %r' % (text, texts), KNOWN_PRED)
         else:
             pieces, trailing = extra
-            if pieces and not any(',' in p.replace('/*,*/', '') or '\\2c' in p.lower() for p in pieces):
+            if pieces and not any(',' in p.replace('/*,*/', '') or ESC_STRUCT.search(p) or p.endswith('\\')
+                                  or not balanced(p) for p in pieces):
                 singles = [parse_impl(p) for p in pieces]
                 impl.reset(raise_exceptions=False)
                 if all(s[0] == 'ok' for s in singles):
@@ -365,7 +406,7 @@ def run_list_history(ctx, ops):
 def run(ctx):
     rng = ctx.rng
     quick = ctx.tier == 'quick'
-    n_ast, n_mut, n_soup, n_hist = (700, 900, 700, 120) if quick else (12000, 20000, 15000, 2500)
+    n_ast, n_mut, n_soup, n_hist = (2500, 3000, 2000, 400) if quick else (100000, 160000, 120000, 20000)
     ctx.cov['rule'] = ('selectors from the AST generator (1-4 compounds; type/universal with none, *| and | prefix; id, class, attribute '
                        'x 7 forms, pseudo-class, functional pseudo with an+b / ident / string arguments, :not(simple), one/two-colon and '
                        'functional pseudo-elements; 4 combinators) each in a canonical and a random spelling (white space, comments, '
